@@ -10,6 +10,11 @@ import vlib
 from vlib import Infra, log, sha
 
 
+def _rm(path):
+    if not os.environ.get("VERIF_KEEP"):
+        shutil.rmtree(path, ignore_errors=True)
+
+
 class Ctx:
     def __init__(self, fam, prop, tier, seed, scratch):
         self.fam, self.prop, self.tier, self.seed, self.scratch = fam, prop, tier, seed, scratch
@@ -85,7 +90,7 @@ def stage_model(ctx, st):
     ctx.transitions += r.generated
     if r.coverage_zero:
         ctx.notes.append("vacuity warning (never taken): " + ", ".join(r.coverage_zero[:8]))
-    shutil.rmtree(wd, ignore_errors=True)
+    _rm(wd)
 
 
 # --------------------------------------------------------------------------- gen -> replay
@@ -135,7 +140,7 @@ def generate(ctx, st):
     if not mode:
         ctx.states += r.distinct
         ctx.transitions += r.generated
-    shutil.rmtree(wd, ignore_errors=True)
+    _rm(wd)
     return items, (not mode)
 
 
@@ -175,7 +180,7 @@ def stage_gen_replay(ctx, st, only=None):
             continue
         seen_sig.add(sig)
         record_violation(ctx, "replay", scn, detail, st)
-    shutil.rmtree(outdir, ignore_errors=True)
+    _rm(outdir)
 
 
 # --------------------------------------------------------------------------- record -> validate
@@ -249,7 +254,7 @@ def validate_traces(ctx, st, lines):
     log("[validate] %s: %d traces / %d events through TLC (%d states), %d rejected, %.1fs" %
         (st["trace_cfg"], len(order), len(flat), r.distinct, len(fails), r.wall))
     ctx.states += 0
-    shutil.rmtree(wd, ignore_errors=True)
+    _rm(wd)
     return groups, order, fails, r
 
 
@@ -298,7 +303,7 @@ def stage_record_validate(ctx, st, only=None):
             continue
         seen_sig.add(sig)
         record_violation(ctx, "trace", scn, detail, st)
-    shutil.rmtree(outdir, ignore_errors=True)
+    _rm(outdir)
 
 
 # --------------------------------------------------------------------------- apalache
@@ -329,7 +334,7 @@ def stage_apalache(ctx, st):
     if not ok:
         raise Infra("apalache did not discharge %s/%s (spec-level):\n%s" % (st["spec"], st["inv"], p.stdout[-2500:]))
     ctx.extra["apalache_obligations"] = ctx.extra.get("apalache_obligations", 0) + 1
-    shutil.rmtree(wd, ignore_errors=True)
+    _rm(wd)
 
 
 def stage_custom(ctx, st):
